@@ -58,6 +58,13 @@ func fatalHarness(format string, a ...any) {
 var scratchDirs []string
 
 func cleanupAll() {
+	if os.Getenv("VERIF_KEEP") != "" {
+		for _, d := range scratchDirs {
+			fmt.Fprintln(os.Stderr, "kept scratch", d)
+		}
+		scratchDirs = nil
+		return
+	}
 	for _, d := range scratchDirs {
 		os.RemoveAll(d)
 	}
